@@ -181,7 +181,7 @@ Print Assumptions predecessor_of_origin.
 (* the fuel of the `while needed > 64` padding loop is sufficient for every name *)
 Theorem pad_fuel_sufficient : forall (n : name) acc,
   0 <= wire_length n -> snd (pad_labels 8 (255 - wire_length n) acc) <= 64.
-Proof. intros n acc H. apply NameSucc.pad_labels_enough. cbn. lia. Qed.
+Proof. exact NameSucc.pad_fuel_sufficient. Qed.
 Print Assumptions pad_fuel_sufficient.
 
 (* ---- non-vacuity: the hypotheses are satisfiable and the conclusions are not trivial ---- *)
